@@ -1,11 +1,14 @@
 #!/bin/bash
-# Run every thorough tier once (sequentially; each uses 16 worker processes), evidence redirected.
+# Run every thorough tier once (sequentially; each uses 16 worker processes), evidence redirected;
+# the full output of each check is kept in $out/logs/<ID>.log.
 cd /verif
-out=/dev/shm/thorough_out
-mkdir -p $out
+out=${THOROUGH_OUT:-/dev/shm/thorough_out}
+mkdir -p $out/logs
 for i in ${1:-$(seq -w 1 20)}; do
   p=C$i
   s=$(date +%s)
-  r=$(VERIF_OUT=$out VERIF_SEED=${VERIF_SEED:-1} timeout 5400 /venv/bin/python check.py $p --tier thorough 2>&1 | tail -4 | grep -E "^C[0-9]+ tier|^OK|^VIOLATION|^HARNESS" | tr '\n' ' ')
-  echo "$p $(( $(date +%s) - s ))s :: $r"
+  VERIF_OUT=$out VERIF_SEED=${VERIF_SEED:-1} timeout 5400 /venv/bin/python check.py $p --tier thorough > $out/logs/$p.log 2>&1
+  rc=$?
+  r=$(tail -4 $out/logs/$p.log | grep -E "^C[0-9]+ tier|^OK|^VIOLATION|^HARNESS" | tr '\n' ' ')
+  echo "$p $(( $(date +%s) - s ))s rc=$rc :: $r"
 done
